@@ -351,7 +351,14 @@ class Intrinsics:
                 raise Unsupported("tuple unpack arity")
             return val.items
         if isinstance(val, Z):
-            return [Z(F(f"unpack{n}_{i}", Val, Val)(val.term)) for i in range(n)]
+            parts = [Z(F(f"unpack{n}_{i}", Val, Val)(val.term)) for i in range(n)]
+            ref = val.meta.get("cell_ref")
+            static = ref.meta.get("static") if isinstance(ref, Z) else None
+            if n == 2 and val.meta.get("op") == "popitem" and static is not None and static[1] == "_buffered_collections":
+                # (id, collection) popped from a class's registry of buffered collections
+                parts = [Z(parts[0].term, None, {"plain": True}),
+                         Z(parts[1].term, "node", {"registered_of": static[0], "registry_content": val.meta.get("cell_content")})]
+            return parts
         raise Unsupported("unpack of " + repr(val))
 
     # ------------------------------------------------------------------ literals / displays / comprehensions
@@ -896,6 +903,9 @@ class Intrinsics:
         if isinstance(obj, Z) and name == "_data" and obj.meta.get("plain"):
             # a plain value (not a synced node) has no _data attribute
             return [(st, Raise(eng.mk_exc("AttributeError")))]
+        if isinstance(obj, Z) and obj.hint == "node" and name in getattr(eng, "virtual_attrs", {}):
+            # a data attribute / property of a node of unknown identity: a function of ghost state
+            return eng.virtual_attrs[name](eng, st, obj)
         if isinstance(obj, Z):
             if obj.hint == "node" or obj.meta.get("maybe_node") or (obj.meta.get("item_of") is not None
                                                                        and name in eng.virtual):
